@@ -380,6 +380,98 @@ def check_enum_tables(db, chk):
             chk.ob(R, "IndexExprResult::%s" % k, False, "interpreter aborted (fail closed): %s" % ex, disc.loc())
 
 
+def check_optional_by_emptiness(db, chk):
+    """protobuf has no Option for repeated / map / bytes fields, so the conversions store `None` as "empty" and rebuild the
+    Option from an emptiness test.  Wherever a conversion picks Some / None for one value by an `is_empty()` test of the
+    stored field, empty must be the None side (the other way round a present value decodes to None and is lost)."""
+    R = "TABLE-empty-is-none"
+    chk.rule(R, "an Option rebuilt from an is_empty() test is None on the empty side and Some on the other")
+    n = 0
+    for f in conversions(db):
+        c = f.cfg
+        for b, t in c.calls():
+            if not has_name(t, "::is_empty"):
+                continue
+            sws = [s for s in sorted(c.reach0) if c.switch_info(s) and c.switch_info(s)["kind"] == "bool" and c.bool_def(s) and
+                   c.bool_def(s)[0] == "call" and c.bool_def(s)[1] == b]
+            if len(sws) != 1:
+                continue
+            si = c.switch_info(sws[0])
+            arms = {}
+            for lab in (True, False):
+                tgt = si["label_to"][lab]
+                other = si["label_to"][not lab]
+                region = {x for x in c.reachable_from([tgt], include_start=True, avoid=[other]) if c.dominates(tgt, x)}
+                vs = {}
+                for i, j, s in c.aggregates(adt="Option"):
+                    if i in region and len(s["lhs"]) == 1:
+                        vs.setdefault(s["lhs"][0], set()).add(s["rv"]["variant"])
+                arms[lab] = vs
+            common = [l for l in arms[True] if l in arms[False] and len(arms[True][l]) == 1 and len(arms[False][l]) == 1 and
+                      arms[True][l] != arms[False][l]]
+            if not common:
+                continue            # not an Option chosen by this test
+            n += 1
+            chk.analysed(f)
+            l = common[0]
+            what = _stored_name(c, t["args"][0])
+            ok = arms[True][l] == {"None"} and arms[False][l] == {"Some"}
+            dst = result_inner(norm(f.locals[0]["ty"])).split("<")[0].split("::")[-1]
+            chk.ob(R, "%s.%s" % (dst, what), ok,
+                   "%s: the Option rebuilt from `%s.is_empty()` is %s when empty and %s otherwise" % (
+                       f.path, what, sorted(arms[True][l])[0], sorted(arms[False][l])[0]), f.loc(t["ln"]))
+    chk.floor(R, "Options rebuilt from an emptiness test", n, 3)
+    # the encode side of the same convention: where `None` is stored as a fresh empty value (Vec::new / Default / String::new),
+    # only None may take that arm -- a `Some(x) if <condition on x>` guard that falls through to it stores a present value as
+    # "absent" (Some(empty) and None mean different things, e.g. "covers no fragment" vs "coverage unknown")
+    m = 0
+    for f in conversions(db):
+        src_ty = norm(f.locals[1]["ty"])
+        dst_ty = result_inner(norm(f.locals[0]["ty"]))
+        if not ("pb::" in dst_ty and "pb::" not in src_ty):
+            continue
+        c = f.cfg
+        for b in sorted(c.reach0):
+            si = c.switch_info(b)
+            if not (si and si["kind"] == "enum" and (si["adt"] or "").endswith("option::Option") and si["place"] and
+                    "Some" in si["label_to"] and "None" in si["label_to"]):
+                continue
+            if c.canon([si["place"][0]])[0] != 1 and ("arg", 1) not in c.origins(si["place"][0], transparent=lambda t: True):
+                continue
+            none_t, some_t = si["label_to"]["None"], si["label_to"]["Some"]
+            none_region = {x for x in c.reachable_from([none_t], include_start=True, avoid=[some_t]) if c.dominates(none_t, x)}
+            fresh = [t for bb, t in c.calls() if bb in none_region and has_name(t, "Vec::<T>::new", "Vec::<T, A>::new", "String::new", "Default>::default",
+                                                                                   "HashMap::<K, V>::new", "HashMap::<K, V, S>::default")]
+            if not fresh:
+                continue
+            m += 1
+            leak = none_t in c.reachable_from([some_t], include_start=True, avoid=[b])
+            what = _stored_name(c, {"cp": si["place"]})
+            chk.ob(R, "stored-empty-only-for-None:%s.%s" % (dst_ty.split("::")[-1], what), not leak,
+                   "%s: the arm that stores a fresh empty value for `%s` is taken only when the Option is None (a Some value can fall through to it: %s)" % (
+                       f.path, what, leak), f.loc(fresh[0]["ln"]))
+    chk.info("encode arms storing None as a fresh empty value: %d" % m)
+
+
+def _stored_name(c, op):
+    p = op_place(op)
+    for _ in range(6):
+        if p is None:
+            return "?"
+        nm = c.fn.locals[p[0]].get("name")
+        flds = [e["f"] for e in p[1:] if isinstance(e, dict) and "f" in e and not str(e["f"]).isdigit()]
+        if flds:
+            return flds[-1]
+        if nm:
+            return nm
+        d = c.single_def(p[0])
+        if not d or d[0] != "assign":
+            return "?"
+        rv = d[3]["rv"]
+        p = rv.get("place") if rv["r"] == "ref" else (op_place(rv["op"]) if rv["r"] == "use" else None)
+    return "?"
+
+
 def run(db, chk):
     R = "COVER-struct"
     chk.rule(R, "struct conversions: source fields all read, target fields all derived from the source")
@@ -398,5 +490,6 @@ def run(db, chk):
     check_operation_encode(db, chk)
     check_operation_decode(db, chk)
     check_enum_tables(db, chk)
+    check_optional_by_emptiness(db, chk)
     chk.sample({"conversion": pairs[0] if pairs else None, "total_pairs": len(pairs)})
     chk.assume("prost encode/decode of a message is lossless for the fields it is given")
